@@ -665,6 +665,42 @@ SealedFrozen ==
 \* sealing is deep: seal(b) leaves every descendant with flag b
 DeepSeal == [][\A n \in Nodes, b \in BOOLEAN : Seal(n, b) => \A d \in Desc(St, n) : sealed'[d] = b]_vars
 
+(* C07: a clone is equal, fresh, detached, carries the flags, and building it touches nothing else;
+   afterwards a call on one tree never changes the content of a node of another tree.        *)
+StP == [kind |-> kind', ditems |-> ditems', litems |-> litems', parent |-> parent',
+        pkey |-> pkey', sealed |-> sealed', accw |-> accw', subs |-> subs']
+RECURSIVE PlainEq(_,_,_,_)
+PlainEq(s1, a, s2, b) ==
+  /\ s1.kind[a] = s2.kind[b]
+  /\ IF s1.kind[a] = "list"
+     THEN /\ Len(s1.litems[a]) = Len(s2.litems[b])
+          /\ \A i \in 1..Len(s1.litems[a]) :
+                LET x == s1.litems[a][i]  y == s2.litems[b][i] IN
+                IF IsRef(x) THEN IsRef(y) /\ PlainEq(s1, x, s2, y) ELSE x = y
+     ELSE /\ Len(s1.ditems[a]) = Len(s2.ditems[b])
+          /\ \A i \in 1..Len(s1.ditems[a]) :
+                LET x == s1.ditems[a][i]  y == s2.ditems[b][i] IN
+                /\ x[1] = y[1]
+                /\ IF IsRef(x[2]) THEN IsRef(y[2]) /\ PlainEq(s1, x[2], s2, y[2]) ELSE x[2] = y[2]
+NodeSame(m) == /\ kind'[m] = kind[m] /\ ditems'[m] = ditems[m] /\ litems'[m] = litems[m] /\ parent'[m] = parent[m]
+               /\ pkey'[m] = pkey[m] /\ sealed'[m] = sealed[m] /\ accw'[m] = accw[m]
+CloneOK ==
+  [][\A n \in Nodes, dp \in BOOLEAN : Clone(n, dp) =>
+       LET c == out'.ret IN
+       /\ kind[c] = "free"
+       /\ Desc(StP, c) \cap Alive(St) = {}
+       /\ PlainEq(St, n, StP, c)
+       /\ parent'[c] = NULL
+       /\ sealed'[c] = sealed[n] /\ accw'[c] = accw[n]
+       /\ \A m \in Alive(St) : NodeSame(m)]_vars
+TreeActs == {"DictSet", "DictDel", "DictPop", "DictPopItem", "DictClear", "DictSetDefault", "DictUpdate", "ListSet", "ListDel",
+             "ListAppend", "ListInsert", "ListExtend", "ListPop", "ListRemove", "ListClear", "ListReverse", "ListSort", "ListIMul",
+             "ListSetSlice", "ListDelSlice", "Rebind", "Seal", "SetAccW"}
+ContentLocality ==
+  [][act'[1] \in TreeActs =>
+       \A m \in Alive(St) : (m \notin Desc(St, RootOf(St, act'[2])) /\ kind'[m] # "free")
+                               => (ditems'[m] = ditems[m] /\ litems'[m] = litems[m] /\ sealed'[m] = sealed[m] /\ accw'[m] = accw[m])]_vars
+
 (* C09: events are delivered only to subscribing ancestors-or-self of a changed location,
    at most one per receiver, never when notification is off.                              *)
 EventsOK ==
